@@ -175,6 +175,8 @@ def run(rep, ctx):
         docs.append((g.document(a), g.document(b)))
     docs += [('', '<p>x</p>'), ('<p>a</p>\n\n\n\n<p>b</p>', '<p>a</p>\n<p>b</p>'), ('<pre>a\n\n\n   \n b</pre>', '<pre>a\n \n b</pre>'),
              ('&lt;!-- not a comment --&gt; text', 'text'), ('<head><title>T</title></head>x', '<head><title>U</title></head>x')]
+    import render_checks as _rc
+    docs += _rc.real_pages()         # archived versions of real pages from the repository's fixtures
     n_small_docs = len(docs)
     docs += [('<table>' + a if '<tr>' in a else '<p>' + a + '</p>', '<table>' + b if '<tr>' in b else '<p>' + b + '</p>') for a, b in big
              if '\n\n\n' not in a and len(a) < 150000]
